@@ -786,13 +786,13 @@ pub fn c16_case(dir: &Path, states: &[CState], order: &[usize]) -> Result<String
                         srv.gate.auto_release_prefix(format!("get {}", hex(format!("s{}", c).as_bytes())));
                     }
                     srv.gate.release_after(op);
-                    // the command was executed: its reply must arrive, complete
-                    match read_frame(&mut socks[c], T20) {
-                        Ok((f, b)) => {
-                            received[c].extend_from_slice(&b);
-                            expect_replies[c].push(f);
-                        }
-                        Err(e) => return Err(("executed-command-not-answered".into(), format!("client {} ({:?}): the held command was executed and released after the shutdown signal, but its reply: {}", c, states[c], e))),
+                    // the command was executed: its reply (+OK, 5 bytes) must arrive, complete; a
+                    // pipelined second reply may follow at once and is collected at the end
+                    let (b5, how) = read_n(&mut socks[c], 5, T20);
+                    received[c].extend_from_slice(&b5);
+                    match resp_decode(&b5, 0) {
+                        Ok((f, 5)) => expect_replies[c].push(f),
+                        _ => return Err(("executed-command-not-answered".into(), format!("client {} ({:?}): the held command was executed and released after the shutdown signal, but its reply: {} after {:?}", c, states[c], how, String::from_utf8_lossy(&b5)))),
                     }
                     held_op[c] = None;
                     // a pipelined second request may or may not be served (un-owned select! bit): let it through
